@@ -6,7 +6,9 @@ import (
 	"fmt"
 	"os"
 	"sort"
+	"strings"
 	"testing"
+	"time"
 
 	"github.com/blevesearch/bleve/v2/registry"
 	store "github.com/blevesearch/upsidedown_store_api"
@@ -45,7 +47,7 @@ func (addMerge) PartialMerge(key, l, r []byte) ([]byte, bool) {
 
 func (addMerge) Name() string { return "verif-add" }
 
-var c15Stores = []string{"boltdb", "goleveldb", "gtreap", "moss", "metrics-gtreap", "metrics-boltdb"}
+var c15Stores = []string{"boltdb", "goleveldb", "gtreap", "moss", "metrics-gtreap", "metrics-boltdb", "moss-over-gtreap"}
 
 func c15Open(name, dir string) (store.KVStore, error) {
 	cfg := map[string]interface{}{}
@@ -70,6 +72,13 @@ func c15Open(name, dir string) (store.KVStore, error) {
 	case "goleveldb":
 		cfg["path"] = dir + "/store"
 		cfg["create_if_missing"] = true
+	case "moss-over-gtreap":
+		// moss with another adapter as its lower level: moss's persister hands its in-memory
+		// segments down to that store asynchronously and then serves reads from it
+		real = "moss"
+		cfg["path"] = ""
+		cfg["mossLowerLevelStoreName"] = "gtreap"
+		cfg["mossLowerLevelStoreConfig"] = map[string]interface{}{"path": ""}
 	default:
 		cfg["path"] = ""
 	}
@@ -180,8 +189,8 @@ type c15State struct {
 	readers []*c15Reader
 	nbatch  int
 	// stats
-	staleRead, seeks, ffPrefix, emptyVal, mergeAbsent, reopens, multigets, dupSkipped int
-	lastMod                                                                           map[string]int // key -> batch number of the last modification
+	staleRead, seeks, ffPrefix, emptyVal, mergeAbsent, reopens, multigets, dupSkipped, settles int
+	lastMod                                                                                    map[string]int // key -> batch number of the last modification
 }
 
 func (st *c15State) checkIter(it store.KVIterator, keys []string, snap kvModel, pos int, what string) {
@@ -341,7 +350,7 @@ func c15Property(t *rapid.T, name string, ev *Collector, multiGet bool) {
 			merged, plain := map[string]bool{}, map[string]bool{}
 			for i := 0; i < n; i++ {
 				k := genKey(t, "k")
-				if name == "moss" && (plain[string(k)] || merged[string(k)]) {
+				if strings.HasPrefix(name, "moss") && (plain[string(k)] || merged[string(k)]) {
 					// moss sorts a batch with an unstable sort: two mutations of one key in one
 					// batch have no defined winner.  upsidedown never emits such a batch (its
 					// rows are keyed uniquely), so for moss each key occurs at most once per batch.
@@ -473,6 +482,14 @@ func c15Property(t *rapid.T, name string, ev *Collector, multiGet bool) {
 		},
 		"prefixIter": func(t *rapid.T) { st.withReader(func(rd *c15Reader) { st.runIter(rd, true) }) },
 		"rangeIter":  func(t *rapid.T) { st.withReader(func(rd *c15Reader) { st.runIter(rd, false) }) },
+		"settle": func(t *rapid.T) {
+			if !strings.HasPrefix(name, "moss-over-") {
+				t.Skip("no lower level")
+			}
+			// give moss's persister time to hand the dirty segments down to the lower level
+			time.Sleep(time.Duration(rapid.SampledFrom([]int{1, 5, 20}).Draw(t, "settleMS")) * time.Millisecond)
+			st.settles++
+		},
 		"reopen": func(t *rapid.T) {
 			if !c15Persistent(name) {
 				t.Skip("not persistent")
@@ -531,6 +548,7 @@ func c15Property(t *rapid.T, name string, ev *Collector, multiGet bool) {
 	add(st.emptyVal > 0, "empty-value")
 	add(st.mergeAbsent > 0, "merge-on-absent-key")
 	add(st.reopens > 0, "reopen")
+	add(st.settles > 0, "lower-level-hand-over-awaited")
 	add(st.multigets > 0, "multi-get")
 	canon := map[string]interface{}{"store": name, "trace": trace, "seeks": st.seeks, "stale": st.staleRead}
 	ev.Case(nt, canon, canon, classes...)
@@ -549,7 +567,7 @@ func c15MultiGet(r store.KVReader, keys [][]byte) (vals [][]byte, err error) {
 
 func TestC15KV(t *testing.T) {
 	ev := Ev("C15")
-	ev.SetRule("rapid state machine per KV adapter (boltdb, goleveldb, gtreap, moss, metrics over gtreap and boltdb): batches of set/delete/merge over 1-3 byte keys from {00,a,b,fe,ff}, " +
+	ev.SetRule("rapid state machine per KV adapter (boltdb, goleveldb, gtreap, moss, metrics over gtreap and boltdb, moss with gtreap as its lower level - with pauses that let moss hand segments down): batches of set/delete/merge over 1-3 byte keys from {00,a,b,fe,ff}, " +
 		"up to 3 held snapshot readers, get / multi-get / prefix and range iterators with Next/Seek scripts, reopen; oracle = sorted byte map with int64-add merge operator, reader answers from its own snapshot copy, full scan after every step; " +
 		"non-trivial = a reader was queried about a key modified by a later batch and an iterator script contained a Seek")
 	ev.Assume("keys are non-empty; a key merged in a batch is not also set/deleted in that batch; Next is only called on a valid iterator")
